@@ -8,6 +8,8 @@ on a distance-independent and on a distance-dependent package:
  (a) other values on flag-0 / flag-9 bands (non-positive ones and -999 placeholders included) -> identical FitInfo
  (b) limits with confidence 0  vs  the same bands flagged 0                                -> identical FitInfo
  (c) flag-1 bands  vs  flag-4 bands carrying (log10 F - 0.5 (s/F)^2/ln10, |s/F|/ln10)      -> identical to 1e-12
+ (h) ONE Source object fitted, its valid / flux / error re-assigned (each alone and combined), fitted again
+                                                                          -> bit-identical to a fresh Source with that content
  (d) a model on the forbidden side of a limit with confidence 1                           -> chi2 >= 1e30
  (e) chi2 = sum over fitted bands of ((lf - predicted)/le)^2 + sum over limits on whose forbidden side
      the reported model lies of -2 ln(1-c)  (arithmetic check on the reported predicted fluxes; and, in the
@@ -45,7 +47,8 @@ REQUIRED_BRANCHES = ['flag0', 'flag1', 'flag2', 'flag3', 'flag4', 'flag9', 'conf
                      'model_corr', 'singular', 'ignored_zero_flux_nonzero_err_flag0', 'ignored_zero_flux_nonzero_err_flag9',
                      'ignored_zero_flux_zero_err', 'ignored_inf', 'ignored_nan', 'ignored_huge_tiny',
                      'exact_tie_indep', 'exact_tie_dist', 'exact_tie_model',
-                     'indep_files', 'indep_cube_wav', 'indep_cube_wav_memmap']
+                     'indep_files', 'indep_cube_wav', 'indep_cube_wav_memmap',
+                     'same_object_valid', 'same_object_flux', 'same_object_error', 'same_object_combined']
 ASSUMPTIONS = ['IEEE rounding is not modelled: model comparison tolerance 1e-9 x condition number; paired real runs are '
                'compared to 1e-12 relative (they are bit-identical on the unchanged tree)',
                'limit decisions closer than 1e-9 to the threshold are skipped (counted as margin_relaxed) - except constructed '
@@ -421,6 +424,74 @@ def run_fit(fitter, s, tag):
     return a
 
 
+def same_bits(a, b):
+    """None if two results are identical bit for bit (NaN-aware), else a description"""
+    for k in ('av', 'sc', 'chi2', 'model_fluxes'):
+        if not np.array_equal(np.asarray(a[k]), np.asarray(b[k]), equal_nan=True):
+            return '%s: %r vs %r' % (k, np.asarray(a[k]).tolist(), np.asarray(b[k]).tolist())
+    if a['name'] != b['name']:
+        return 'ranking: %r vs %r' % (a['name'], b['name'])
+    return None
+
+
+def reassignments(S):
+    """contents to re-assign on ONE Source object between fits: (what is assigned, new content).  Only re-interpretations that
+    keep every non-ignored band valid: a fitted band switched off (1 -> 0, 4 -> 9), lower <-> upper limit, 0 <-> 9,
+    linear -> log10 (1 -> 4); fluxes / errors of flag-1 bands and fluxes of limits rescaled"""
+    flags = list(S['flags'])
+    v1 = list(flags)
+    for j, f in enumerate(flags):
+        if f in (1, 4):
+            v1[j] = 0 if f == 1 else 9
+            break
+    swap = {2: 3, 3: 2, 0: 9, 9: 0}
+    v2 = [swap.get(f, f) for f in flags]
+    for j, f in enumerate(flags):
+        if f == 1 and S['err'][j] > 0:
+            v2[j] = 4
+            break
+    f2 = [x * 1.5 if f in (1, 2, 3) else x for x, f in zip(S['flux'], flags)]
+    e2 = [x * 2. if f == 1 else x for x, f in zip(S['err'], flags)]
+    cur = dict(flags=flags, flux=list(S['flux']), err=list(S['err']))
+    steps = []
+    for what, upd in (('valid', dict(flags=v1)), ('flux', dict(flux=f2)), ('error', dict(err=e2)),
+                      ('valid', dict(flags=v2)), ('combined', dict(flags=flags, flux=list(S['flux']), err=list(S['err']))),
+                      ('valid', dict(flags=v1))):
+        cur = dict(cur); cur.update(upd)
+        steps.append((what, upd, dict(flags=list(cur['flags']), flux=list(cur['flux']), err=list(cur['err']))))
+    return steps
+
+
+def same_object_history(fitter, S, branches):
+    """fit -> re-assign valid / flux / error on the SAME Source object -> fit: every fit must equal, bit for bit, the fit of a
+    fresh Source carrying the same content (the flags / values in force are the ones the object holds now)"""
+    obj = pk.make_source('obj', S['flags'], S['flux'], S['err'])
+    with common.quiet():
+        got = pk.fit_arrays(fitter.fit(obj))
+    diff = same_bits(run_fit(fitter, S, 'fresh'), got)
+    if diff:
+        return 'first fit of the object differs from a fresh source: ' + diff
+    hist = ['fit']
+    for what, upd, content in reassignments(S):
+        if 'flags' in upd:
+            obj.valid = np.array(upd['flags'], dtype=int)
+        if 'flux' in upd:
+            obj.flux = np.array(upd['flux'], dtype=float)
+        if 'err' in upd:
+            obj.error = np.array(upd['err'], dtype=float)
+        hist.append('assign ' + what)
+        branches.add('same_object_' + what)
+        with common.quiet():
+            got = pk.fit_arrays(fitter.fit(obj))
+        hist.append('fit')
+        ref = run_fit(fitter, content, 'fresh')
+        diff = same_bits(ref, got)
+        if diff:
+            return ('history %r on one Source object (started as %r): the last fit differs from the fit of a fresh Source holding '
+                    'the same content %r: %s' % (hist, S, content, diff))
+    return None
+
+
 def same_num(x, y, tol):
     x = float(x); y = float(y)
     if math.isnan(x) or math.isnan(y):
@@ -606,6 +677,10 @@ def check_mode(case, mode, fitter, names, use_model, branches, stats):
         A = res['S']
         if sorted(A['name']) != sorted(names):
             return CaseResult(False, violates=True, branches=branches, detail='model names %r' % (A['name'],))
+        # same Source object re-used with re-assigned valid / flux / error
+        err = same_object_history(fitter, S, branches)
+        if err:
+            return CaseResult(False, violates=True, branches=branches, detail='%s mode, flags %r: %s' % (mode, S['flags'], err))
 
         def fail(what, other, diff):
             return CaseResult(False, violates=True, branches=branches,
